@@ -1,3 +1,4 @@
+import BycycleModel.Routing
 import Proofs.Cyclepoints
 import Proofs.Detect
 import Proofs.Pipeline
@@ -74,5 +75,11 @@ example : computeCyclepoints [0, 1, 3, 3, 1, -1, -2, -2, 0, 1, 2, 1, -1, -1, 0, 
     (([0,0,1,1,1,1,0,0,0,0,1,1,1,0,0,1,1,0,0,0,1,1] : List Nat).map (· == 1)) 0 =
     .ok [⟨10, 4, 11, 8, 6, 12⟩, ⟨15, 11, 16, 14, 12, 17⟩] := by decide +kernel
 example : wellFormed [⟨10, 4, 11, 8, 6, 12⟩, ⟨15, 11, 16, 14, 12, 17⟩] 22 0 := by decide +kernel
+
+/-- the wiring `pipelineCycles` assumes is the wiring of the source (read off /repo on every run, `harness/routing.py`): `compute_features` hands
+its signal, rate, band, centring and option dictionaries unchanged down to `compute_shape_features` / `compute_cyclepoints` / `find_extrema`, the peaks
+and troughs of `find_extrema` reach `find_zerox` in this order, the burst features are computed from the returned shape table and the ORIGINAL signal,
+and the labelling gets the caller's thresholds. -/
+theorem C01_routing : ∀ r ∈ Routing.pipeline, Routing.holds Slots.routes r = true := by decide +kernel
 
 end Bycycle
